@@ -15,6 +15,23 @@ oracle-free laws (totality, coherence, raw-slice fidelity, concatenation) run on
 and on seeded mutations for all twelve entry points; extensions are permuted in the DER tree as the case says;
 the histories are replayed serially and on concurrent goroutines (-race), every call compared with what the same
 bytes give alone; b-after-a through one buffer, twice, and later again = b alone for all twelve entry points.
+
+spec/codec/X509ParseKeys.tla: the key containers (ParsePKCS8PrivateKey / ParsePKCS1PrivateKey / ParseECPrivateKey /
+ParsePKIXPublicKey, and the SubjectPublicKeyInfo inside a request / certificate) as NESTED PARSERS: a descent through
+layers (wrapper, inner PKCS#1 / SEC 1 / seed, SubjectPublicKeyInfo, inner public key), each with its own reasons to
+reject, and the return of (value, error) layer by layer; KeyCoherent, NoTypedNil (an interface holding a nil pointer is
+an object for the caller of an interface-typed parser; the pass-through wrapper is refuted by TLC), RejectionSurfaces,
+WellFormedKey, FindingPolicy (report / escalate / drop).  Case space entry point x key kind (RSA two / three primes,
+P-192 .. P-521, Ed25519, DSA) x 121 defects placed in one layer; every case is materialized (standard library encoders,
+own DER tree for secp192r1 / DSA) and replayed: class in the allowed set, typed nils are mixed outcomes (in EVERY law of
+this check), a well-formed / tolerated container gives exactly the key it encodes.
+
+spec/codec/X509ParseFirstUse.tla: first use of lazily built package state (named-curve parameters) by several
+goroutines at once: the gate protocol (ReadsOnlyReady, FirstUseFunctional, BuiltOnce, Termination under fairness; the
+fast path without a barrier refuted by TLC) and the PLANS - which calls (entry point, key kind) meet at the first use of
+which value.  Each plan is executed in FRESH child processes (the test binary re-executes itself), under the race
+detector and without: race reports involving the repository, panics / crashes, results that differ from what the same
+bytes give alone (at the first use, or afterwards) are violations.
 """
 import json
 import os
@@ -35,6 +52,15 @@ ASSUME = [
     "histories: 400 (thorough 4000) random walks of 12 calls over 6 shapes x 8 equal-layout variants x up to 7 mutations; 'alone' for a "
     "mutated object is the specification's class plus the parser's own reading from a never-seen slice; a history starts in whatever "
     "state earlier histories left (one process, one re-used buffer) - a law about a function must hold there too",
+    "key containers: one key per kind and process (RSA-1024 two / three primes, P-192 .. P-521, Ed25519, DSA-1024), one defect per case; named clauses: "
+    "N5 secp192r1 is a finding (certificate: non-fatal; ParsePKIXPublicKey / ParseCertificateRequest: fatal; private keys: accepted silently), "
+    "S1 leading zero octets of an EC scalar (present or stripped) are ignored, an unknown key algorithm is fatal for ParsePKIXPublicKey and not an "
+    "error inside a request / certificate; trailing bytes after a PKCS#8 / SEC 1 key, PKCS#8 version and attributes, inconsistent CRT values, "
+    "a zero scalar, compressed points, short Ed25519 keys are 'free' (any coherent outcome, a usable object if one is returned)",
+    "first use: the interleaving inside sync.Once cannot be steered from outside; who meets is (16 plans, each in fresh processes: 1 (thorough 4) under the "
+    "race detector, 2 (thorough 24) without); named clause StdEllipticInit: race reports whose write is under crypto/elliptic.initAll and whose read is under "
+    "crypto/elliptic.matchesSpecificCurve (go1.23 standard library: the custom-curve path compares with the NIST curves' parameters without passing their once; "
+    "the comparison's outcome is unaffected) are counted, not judged",
     "'for all byte strings' is sampled: testdata corpus, well-formed objects of every kind and seeded byte/TLV mutations; "
     "non-termination = no return within 10 s",
 ]
@@ -115,11 +141,80 @@ def histories(ctx):
     return walks
 
 
+KEY_ENTRIES = ("pkcs8", "pkcs1", "sec1", "pkix", "csr", "cert")
+
+
+def key_cases(ctx):
+    """X509ParseKeys.tla: the key containers as nested parsers; per (entry, key kind, defect) the allowed outcome classes."""
+    r = ctx.tlc("codec", "MCX509ParseKeys", "X509ParseKeys.cfg", workers=1, timeout=900)
+    rv = ctx.tlc("codec", "MCX509ParseKeys", "X509ParseKeysPassThrough.cfg", workers=1, timeout=900, expect_violation=True, count=False)
+    if rv.violated != "NoTypedNil":
+        raise Infra("the pass-through wrapper is not refuted by NoTypedNil (violated: %s): the invariant does not bite" % rv.violated)
+    defs = {d["name"]: d for d in r.records.get("KDEF", [])}
+    cases = {}
+    for rec in r.records.get("KCASE", []):
+        key = (rec["e"], rec["k"], rec["d"])
+        c = cases.setdefault(key, {"e": rec["e"], "k": rec["k"], "d": rec["d"], "layer": rec["layer"], "effect": rec["effect"],
+                                   "policy": rec["policy"], "allowed": set()})
+        c["allowed"].add(rec["r"])
+    if not cases or "none" not in defs:
+        raise Infra("the key specification exported no case")
+    out = []
+    for key in sorted(cases):
+        c = cases[key]
+        if not c["allowed"] <= set(CLASSES):
+            raise Infra("bad key case export: %s %s" % (key, sorted(c["allowed"])))
+        c["allowed"] = sorted(c["allowed"])
+        if c["effect"] == "fatal" and c["allowed"] != ["fatal"]:
+            raise Infra("a rejection by an inner layer does not surface as <<nil, fatal>> in the specification: %s" % (key,))
+        out.append(c)
+    unused = set(defs) - {c["d"] for c in out}
+    if unused:
+        raise Infra("defects of the catalogue never applicable (vacuous rows): %s" % sorted(unused))
+    if {c["e"] for c in out} != set(KEY_ENTRIES):
+        raise Infra("key cases do not cover every entry point: %s" % sorted({c["e"] for c in out}))
+    return out
+
+
+def first_use_plans(ctx, kcases):
+    """X509ParseFirstUse.tla: the gate protocol of lazily built package state (safety, termination; the fast path refuted)
+    and the plans - who meets whom at a first use - with the class each well-formed object has alone."""
+    r = ctx.tlc("codec", "MCX509ParseFirstUse", ctx.pick("X509ParseFirstUse.cfg", "X509ParseFirstUseThorough.cfg"), workers=ctx.pick(4, 8), timeout=3000)
+    rv = ctx.tlc("codec", "MCX509ParseFirstUse", "X509ParseFirstUseFastPath.cfg", workers=1, timeout=900, expect_violation=True, count=False)
+    if rv.violated != "ReadsOnlyReady":
+        raise Infra("the fast path is not refuted by ReadsOnlyReady (violated: %s)" % rv.violated)
+    alone = {(c["e"], c["k"]): c["allowed"] for c in kcases if c["d"] == "none"}
+    plans = []
+    for p in r.records.get("PLAN", []):
+        calls = []
+        for c in sorted(p["calls"], key=lambda c: (c["e"], c["k"])):
+            e = {"tbs": "cert", "list": "cert"}.get(c["e"], c["e"])
+            allowed = ["ok"] if c["e"].startswith("crl") else alone.get((e, c["k"]))
+            if not allowed:
+                raise Infra("plan %s-%s: no well-formed case (%s, %s) in the key specification" % (p["kind"], p["lazy"], e, c["k"]))
+            calls.append({"e": c["e"], "k": c["k"], "allowed": allowed})
+        plans.append({"kind": p["kind"], "lazy": p["lazy"], "twice": p["twice"], "calls": calls})
+    plans.sort(key=lambda p: (p["kind"], p["lazy"]))
+    if len(plans) < 10 or not any(p["lazy"] == "p192" for p in plans):
+        raise Infra("first-use run exported %d plans" % len(plans))
+    return plans
+
+
 def run(ctx, replay=None):
     ctx.assumptions += ASSUME
     if replay:
-        ctx.go_test("c11", run="TestReplayOne$", env={"VERIF_C11_REPLAY": os.path.abspath(replay)})
+        with open(replay) as f:
+            rp = json.load(f).get("replay", {})
+        # a first-use plan found under the race detector is re-executed under it
+        ctx.go_test("c11", run="TestReplayOne$", env={"VERIF_C11_REPLAY": os.path.abspath(replay)},
+                    race=bool(rp.get("kind") == "firstuse" and rp.get("race")))
         return
+    # 0. the key containers as nested parsers, and the first use of lazily built package state
+    kcases = key_cases(ctx)
+    plans = first_use_plans(ctx, kcases)
+    ctx.log("keys: %d (entry point, key kind, defect) cases; first use: %d plans" % (len(kcases), len(plans)))
+    kp = ctx.write_ndjson("keycases.ndjson", kcases)
+    fp = ctx.write_ndjson("firstuse-plans.ndjson", plans)
     # 1. the case space: templates x mutations, Coherent and the other invariants on every state, CASE export
     r = ctx.tlc("codec", "MCX509Parse", ctx.pick("X509ParseQuick.cfg", "X509ParseThorough.cfg"), workers=1, timeout=3000)
     groups, ncases = build_cases(ctx, r)
@@ -141,7 +236,12 @@ def run(ctx, replay=None):
     #     then the histories again on concurrent goroutines with the race detector on
     hp = ctx.write_ndjson("histories.ndjson", walks)
     ctx.go_test("c11", run="TestHistory$", env={"VERIF_HIST": hp}, timeout=3000, name="c11history")
-    ctx.go_test("c11", run="TestHistoryConcurrent$", env={"VERIF_HIST": hp, "VERIF_HIST_CONCURRENT": ctx.pick(200, 0)}, race=True,
+    #     ... and, in the same race-instrumented binary, the first-use plans in fresh child processes
+    ctx.go_test("c11", run="TestHistoryConcurrent$|TestFirstUse$", env={"VERIF_HIST": hp, "VERIF_HIST_CONCURRENT": ctx.pick(200, 0),
+                                                                        "VERIF_FUPLANS": fp, "VERIF_FU_REPS": ctx.pick(1, 4)}, race=True,
                 timeout=3000, name="c11historyrace")
+    # 3c. the key cases into the real key parsers; the first-use plans again without the race detector (real panics / wrong results)
+    ctx.go_test("c11", run="TestKeys$|TestFirstUse$", env={"VERIF_KEYCASES": kp, "VERIF_FUPLANS": fp, "VERIF_FU_REPS": ctx.pick(2, 24)},
+                timeout=3000, name="c11keys")
     # 4. oracle-free laws on the corpus and on seeded mutations, all twelve entry points
     ctx.go_test("c11", run="TestLaws$", env={"VERIF_C11_MUTS": ctx.pick(150, 8000)}, timeout=3000, name="c11laws")
